@@ -1,6 +1,7 @@
 package harness
 
 import (
+	"bytes"
 	"context"
 	"errors"
 	"fmt"
@@ -22,7 +23,9 @@ import (
 
 func c17SeqUnit(unit string, env *fw.Env) *fw.Result {
 	res := fw.NewResult()
-	acts := []string{"get", "put", "del", "commit", "rollback", "scan"}
+	// "putbig" buffers a value larger than a log record: the commit of such a transaction fails without any
+	// injected fault, which is the one way to reach the failed-commit path through the public API
+	acts := []string{"get", "put", "del", "commit", "rollback", "scan", "putbig"}
 	depth := 4
 	if env.Thorough {
 		depth = 5
@@ -53,6 +56,7 @@ func c17SeqUnit(unit string, env *fw.Env) *fw.Result {
 				}
 				finished := ""
 				wrote := false
+				hasBig := false
 				model := cloneModel(r.Model)
 				for i, a := range seq {
 					closedWant := finished != ""
@@ -70,6 +74,11 @@ func c17SeqUnit(unit string, env *fw.Env) *fw.Result {
 						if err == nil {
 							wrote = true
 						}
+					case "putbig":
+						err = tx.Put([]byte("big"), bytes.Repeat([]byte("B"), 40000))
+						if err == nil && !closedWant && !ro {
+							hasBig = true
+						}
 					case "scan":
 						it := tx.NewIterator()
 						it.SeekToFirst()
@@ -80,7 +89,14 @@ func c17SeqUnit(unit string, env *fw.Env) *fw.Result {
 						continue
 					case "commit":
 						err = tx.Commit()
-						if !closedWant && err == nil {
+						if !closedWant && err != nil && hasBig {
+							// a failed commit ends the transaction: nothing applied, the database released
+							finished = "failed to commit"
+							err = nil
+						} else if !closedWant && err == nil && hasBig {
+							problem = fmt.Sprintf("oversized-commit-accepted\ncommit of a transaction holding a 40000-byte value succeeded (sequence %v)", seq)
+							return
+						} else if !closedWant && err == nil {
 							finished = "committed"
 							if !ro {
 								// apply buffered writes to the model
